@@ -40,6 +40,12 @@ func c04Scenarios(tier string) []CScenario {
 		{Name: "same-batch-twice", Threads: [][]CReq{{attsN(k01, 0, 1)}, {attsN(k01, 0, 1)}}},
 		{Name: "multisign-vs-batch", Threads: [][]CReq{{signsN(0, 1)}, {attsN(k10, 0, 1)}}},
 		{Name: "multisign-ab-vs-ba", Threads: [][]CReq{{signsN(0, 1)}, {signsN(1, 0)}}},
+		// Requests on different keys with different values: they share no lock, so anything they share otherwise (a
+		// buffer, a cache) shows as one key's record carrying the other's values.
+		{Name: "props-on-different-keys", Threads: [][]CReq{{prop1(0, 5)}, {prop1(1, 9)}}},
+		{Name: "props-on-different-keys-then-again", Threads: [][]CReq{{prop1(0, 5), prop1(0, 6)}, {prop1(1, 9), prop1(1, 7)}}},
+		{Name: "atts-on-different-keys", Threads: [][]CReq{{att1(0, 1, 2)}, {att1(1, 3, 4)}}},
+		{Name: "att-and-prop-on-different-keys-vs-batch", Threads: [][]CReq{{att1(0, 1, 2)}, {prop1(1, 9)}, {attsN(k10, 0, 1)}}},
 		{Name: "multisign-abc-vs-cab-vs-single", Threads: [][]CReq{{signsN(0, 1, 2)}, {signsN(2, 0, 1)}, {att1(1, 0, 1)}}},
 		{Name: "batch-vs-two-singles", Threads: [][]CReq{{attsN(k01, 1, 2)}, {att1(0, 0, 1)}, {att1(1, 0, 1)}}},
 	}
